@@ -170,3 +170,24 @@ func specCustomKey(a Assertion) PublicKey {
 //@   ensures result == nil ==> !final(earliestTime).IsZero() && (final(latestTime) == final(earliestTime) || (final(latestTime).IsZero() && final(earliestTime) == db.earliestTime))
 //@   loop 0: invariant -1 <= idx0 && idx0 < len(db.checkers)
 //@   loop 0: invariant forall k int :: 0 <= k && k <= idx0 ==> checkerOK(db.checkers[k], assert, accKey, earliestTime, latestTime)
+
+// ---- verdicts of constraint matching used by interfaces/policy (assumed, T5) ------
+
+//@ ghost nameOK(ref, str, str) bool
+//@ ghost attrOK(ref, iface, iface) bool
+//@ ghost devScopeOK(ref, ref, ref, bool) bool
+
+//@ func (*NameConstraints).Check
+//@   trusted
+//@   assigns nothing
+//@   ensures (result == nil) == nameOK(nc, name, special["$INTERFACE"])
+
+//@ func (*AttributeConstraints).Check
+//@   trusted
+//@   assigns nothing
+//@   ensures (result == nil) == attrOK(c, attrer, helper)
+
+//@ func (*DeviceScopeConstraint).Check
+//@   trusted
+//@   assigns nothing
+//@   ensures opts != nil ==> (result == nil) == devScopeOK(c, model, store, opts.UseFriendlyStores)
